@@ -43,7 +43,7 @@ macro_rules! ep {
 
 /// Hand the text to a reader that takes a path: one scratch file per worker thread (in /dev/shm when there is one),
 /// removed when the thread ends.
-fn with_file<R>(s: &str, f: impl FnOnce(&std::path::Path) -> R) -> R {
+pub fn with_file<R>(s: &str, f: impl FnOnce(&std::path::Path) -> R) -> R {
     struct Scratch(std::path::PathBuf);
     impl Drop for Scratch {
         fn drop(&mut self) {
